@@ -18,6 +18,8 @@
 (*              on the C side), and calls the `pub extern fn` directly too *)
 (*        p2p   Penne calls a private `extern fn` with the body of the     *)
 (*              kind directly (C calling convention inside one module)     *)
+(*        plain control (scalar and mix only): the same body as an         *)
+(*              ordinary `fn`                                              *)
 (* family scalar  id / widen / narrow x every boundary value of T          *)
 (*        view    sum / max / at over arrays of lengths 0..4 x every       *)
 (*                prefix length; argument forms: by name, member `s.a`,    *)
@@ -27,7 +29,8 @@
 (*                prints its cells afterwards                              *)
 (*        mix     parameter lists of 1..MaxMix entries (rotations of the   *)
 (*                nine ABI integer types; variant 2 turns two positions    *)
-(*                into a view and a pointer): position-sensitive fold      *)
+(*                into a view and a pointer; variant 3 has wide scalars    *)
+(*                only): position-sensitive fold                           *)
 (*        cb      C walks an array and calls a Penne `pub extern fn` for   *)
 (*                each element, which prints and calls back into C         *)
 (* Invariants (A |= R): Sane -- the machine runs every program to          *)
@@ -77,6 +80,8 @@ Target(nm, d, dir) ==
          [] dir = "c2p" -> [call |-> Nm("c_tr_p", nm), fns |-> <<PenneExt(Nm("p", nm), d, TRUE)>>,
                             foreign |-> <<Foreign(Nm("c_tr_p", nm), [lib |-> "tramp", cb |-> Nm("p", nm), sig |-> SigOf(f)])>>]
          [] dir = "p2p" -> [call |-> Nm("p", nm), fns |-> <<PenneExt(Nm("p", nm), d, FALSE)>>, foreign |-> <<>>]
+         \* control: the same body as an ordinary (not `extern`) function
+         [] dir = "plain" -> [call |-> Nm("f", nm), fns |-> <<Lib(Nm("f", nm), d) @@ [ext |-> FALSE, pub |-> FALSE]>>, foreign |-> <<>>]
 WideTramp(nm, d) == Foreign(Nm("c_tw_p", nm), [lib |-> "trampw", cb |-> Nm("p", nm), sig |-> SigOf(Lib(Nm("p", nm), d))])
 
 MainFn(body) == FnR("main", <<>>, PrimT("u8"), body, Lit("u8", <<0>>))
@@ -214,9 +219,16 @@ Mut(t, dir) ==
 
 \* ---- family mix ---------------------------------------------------------------
 \* rotation r of the nine types, the first k of them; variant 2 makes position 2 a view and position 7 a pointer
+\* variant 3: no narrow integer travels by value (scalars from the wide types only; the view and the pointer have narrow
+\* elements): long parameter lists that do not depend on how a narrow register argument is extended
+WideInts == <<"i32", "i64", "u32", "u64", "usize">>
+NarrowInts == <<"i8", "i16", "u8", "u16">>
 MixTypes(r, k, variant) ==
-    [i \in 1..k |-> [k |-> IF variant = 2 /\ i = 2 THEN "v" ELSE IF variant = 2 /\ i = 7 THEN "p" ELSE "s",
-                     t |-> AbiInts[((i + r - 2) % Len(AbiInts)) + 1]]]
+    [i \in 1..k |-> IF variant = 3
+                    THEN (IF i \in {2, 7} THEN [k |-> IF i = 2 THEN "v" ELSE "p", t |-> NarrowInts[((i + r) % 4) + 1]]
+                          ELSE [k |-> "s", t |-> WideInts[((i + r) % 5) + 1]])
+                    ELSE [k |-> IF variant = 2 /\ i = 2 THEN "v" ELSE IF variant = 2 /\ i = 7 THEN "p" ELSE "s",
+                          t |-> AbiInts[((i + r - 2) % Len(AbiInts)) + 1]]]
 \* the value at position i: top bit set, a different pattern per position
 MixVal(t, i) == LET w == Width(t) IN IF i % 3 = 0 THEN MinSigned(w) ELSE IF i % 3 = 1 THEN Pat(w, 195, 16 + i) ELSE Pat(w, 255, 255 - i)
 Mix(r, variant, dir) ==
@@ -277,8 +289,9 @@ LenCell(t, kind, ext) ==
 Static == {"sig", "len"}
 
 \* ---- the state machine -----------------------------------------------------------
-Picks == {[fam |-> f, t |-> t, dir |-> d, r |-> 0, variant |-> 0] : f \in Families \cap {"scalar", "view", "viewlit", "mut"}, t \in Types, d \in Dirs}
-         \cup {[fam |-> "mix", t |-> "", dir |-> d, r |-> r, variant |-> v] : r \in (IF "mix" \in Families THEN 1..Len(AbiInts) ELSE {}), v \in {1, 2}, d \in Dirs}
+Picks == {[fam |-> f, t |-> t, dir |-> d, r |-> 0, variant |-> 0] : f \in Families \cap {"view", "viewlit", "mut"}, t \in Types, d \in Dirs \ {"plain"}}
+         \cup {[fam |-> "scalar", t |-> t, dir |-> d, r |-> 0, variant |-> 0] : t \in (IF "scalar" \in Families THEN Types ELSE {}), d \in Dirs}
+         \cup {[fam |-> "mix", t |-> "", dir |-> d, r |-> r, variant |-> v] : r \in (IF "mix" \in Families THEN 1..Len(AbiInts) ELSE {}), v \in {1, 2, 3}, d \in Dirs}
          \cup {[fam |-> "cb", t |-> t, dir |-> "c2p", r |-> 0, variant |-> 0] : t \in (IF "cb" \in Families THEN Types ELSE {})}
          \cup {[fam |-> "sig", ty |-> ty, pos |-> pos, form |-> form] : ty \in (IF "sig" \in Families THEN SigTypes ELSE {}),
                                                                        pos \in {"param", "ret"}, form \in {"head", "body"}}
@@ -321,7 +334,7 @@ SimpleKinds == {"id", "widen", "narrow", "sum", "max", "at", "fill", "incr", "ad
 EmitLib == (pick = None) =>
     \A kd \in SimpleKinds, t \in AbiIntSet : PrintT(<<"LIB", ToJson([lib |-> kd, t |-> t, fn |-> Lib("NAME", [lib |-> kd, t |-> t])])>>)
 EmitCase == done =>
-    PrintT(<<"CASE", ToJson([pick |-> pick, status |-> res.status, verdict |-> built.verdict,
+    PrintT(<<"CASE", ToJson([pick |-> pick, status |-> res.status, verdict |-> built.verdict, abi |-> AbiRule(built.prog),
                              out |-> built.ex,
                              prog |-> built.prog])>>)
 =============================================================================
